@@ -79,4 +79,5 @@ def replay_scripts(repo, candidates):
             return None
         failure.replay_note = '%d candidate script(s) replayed on target/debug/brush: all print what is expected — no failing input among them' % len(candidates)
         return None
+    cb.candidates = candidates
     return cb
